@@ -1,5 +1,8 @@
-"""Runs every quick check against every seeded change (on scratch copies of /repo) and writes
-seeded/<id>/meta.json and seeded/RESULTS.md.  usage: /venv/bin/python tools_seeded_matrix.py [budget_s] [ids...]"""
+"""Runs the quick checks against every seeded change (on scratch copies of /repo) and writes
+seeded/<id>/meta.json and seeded/RESULTS.md.
+usage: /venv/bin/python tools_seeded_matrix.py [budget_s] [ids...]
+       OTHER_BUDGET=6 ...   budget for the checks of the properties the change was *not* written against (0: not run)
+Each check stops handing out runs once it has a violation (--stop-at-first), then shrinks and verifies the replay."""
 import json, os, subprocess, sys, shutil, time
 
 ROOT = os.path.dirname(os.path.abspath(__file__))
@@ -20,13 +23,18 @@ def run(sid, budget):
         env0 = {**os.environ, "ROBOTOOLS_REPO": "/repo"}
         d0 = subprocess.run([sys.executable, os.path.join(d, "demo.py")], cwd="/repo", env=env0, capture_output=True, text=True)
         res = {}
+        owning = sid.split("-")[0]
+        other = float(os.environ.get("OTHER_BUDGET", budget))
         for p in PROPS:
             t0 = time.time()
-            c = subprocess.run([sys.executable, "-m", "verif.check", p, "--tier", "quick", "--budget", str(budget), "--no-evidence"],
+            b = budget if p == owning else other
+            if b <= 0:
+                continue
+            c = subprocess.run([sys.executable, "-m", "verif.check", p, "--tier", "quick", "--budget", str(b), "--no-evidence", "--stop-at-first"],
                                cwd=ROOT, env={**os.environ, "VERIF_REPO": target, "PYTHONDONTWRITEBYTECODE": "1"}, capture_output=True, text=True)
             clauses = sorted({ln.split("clause=")[1].split()[0] for ln in c.stdout.splitlines() if ln.startswith("# clause=")})
             res[p] = {"exit": c.returncode, "caught": c.returncode == 1 and "VIOLATION property=" in c.stdout, "clauses": clauses,
-                      "wall_s": round(time.time() - t0, 1)}
+                      "wall_s": round(time.time() - t0, 1), "budget_s": b}
         agent = json.load(open(os.path.join(d, "meta.agent.json"))) if os.path.exists(os.path.join(d, "meta.agent.json")) else {}
         meta = {
             "id": sid,
@@ -42,7 +50,8 @@ def run(sid, budget):
                 "how": "patch applied to a scratch copy of /repo under /dev/shm; pytest and seeded/<id>/demo.py run there; demo run again against /repo",
             },
             "checks": res,
-            "caught_by": [p for p in PROPS if res[p]["caught"]],
+            "caught_by": [p for p in PROPS if p in res and res[p]["caught"]],
+            "checks_not_run": [p for p in PROPS if p not in res],
             "budget_s": budget,
         }
         json.dump(meta, open(os.path.join(d, "meta.json"), "w"), indent=1)
